@@ -92,7 +92,15 @@ func reusePort(network, address string, c syscall.RawConn) error {
 // NewUpstream starts an upstream on a fresh loopback port.
 func NewUpstream(proto string) (*Upstream, error) {
 	lc := net.ListenConfig{Control: reusePort}
-	ln, err := lc.Listen(context.Background(), "tcp", "127.0.0.1:0")
+	var ln net.Listener
+	var err error
+	for i := 0; i < 100; i++ { // the machine is shared: the ephemeral range can be momentarily exhausted by TIME_WAIT
+		ln, err = lc.Listen(context.Background(), "tcp", "127.0.0.1:0")
+		if err == nil {
+			break
+		}
+		time.Sleep(20 * time.Millisecond)
+	}
 	if err != nil {
 		return nil, err
 	}
@@ -527,8 +535,12 @@ func (u *Upstream) Close() {
 		u.ln = nil
 	}
 	for _, uc := range u.order {
-		uc.SelfClosed = true
-		_ = uc.c.Close()
+		if !uc.SelfClosed && !uc.PeerClosed {
+			uc.SelfClosed = true
+			rst(uc.c) // reset, not FIN: tear-down must not leave a TIME_WAIT socket behind (shared machine)
+		} else {
+			_ = uc.c.Close()
+		}
 	}
 	if u.guard >= 0 {
 		_ = syscall.Close(u.guard)
